@@ -13,10 +13,44 @@ Which coroutine is resumed next is *never* decided here; the driver does that fr
 """
 from __future__ import annotations
 
+import contextvars
 import sys
 import threading
 
 _local = threading.local()
+
+# Real OS threads are expensive to create in this sandbox (0.35 ms alone, ~3.5 ms with 16 busy
+# processes), so coroutine bodies run on pooled real threads.  Every body runs inside a fresh, empty
+# `contextvars.Context` -- exactly what a newly started thread gets in CPython 3.12 -- so ContextVar
+# semantics are those of a new thread; `threading.local` storage is the only thing that survives
+# from one body to the next on the same pooled thread.
+_idle: list = []
+
+
+class _PoolThread:
+    def __init__(self):
+        self.sem = threading.Semaphore(0)
+        self.job = None
+        self.thread = threading.Thread(target=self._loop, name="sim-pool", daemon=True)
+        self.thread.start()
+
+    def _loop(self):
+        while True:
+            self.sem.acquire()
+            job, self.job = self.job, None
+            try:
+                contextvars.Context().run(job)
+            finally:
+                _idle.append(self)
+
+    def submit(self, job):
+        self.job = job
+        self.sem.release()
+
+
+def _run_on_pool(job):
+    w = _idle.pop() if _idle else _PoolThread()
+    w.submit(job)
 
 
 class CoroKilled(BaseException):
@@ -49,7 +83,6 @@ class Coro:
         # optional () -> bool: pre-emption is deferred to the next line event at which it holds
         self.preempt_guard = preempt_guard
         self.line_log = line_log
-        self.thread = threading.Thread(target=self._main, name=f"sim-{name}", daemon=True)
 
     # ---- driver side -------------------------------------------------------------------------
     def resume(self):
@@ -58,7 +91,7 @@ class Coro:
             raise RuntimeError("resume of finished coroutine")
         if not self.started:
             self.started = True
-            self.thread.start()
+            _run_on_pool(self._main)
         else:
             self._resume.release()
         self._yielded.acquire()
@@ -68,8 +101,6 @@ class Coro:
             self._kill = True
             self._resume.release()
             self._yielded.acquire()
-        if self.started:
-            self.thread.join(timeout=5)
 
     # ---- coroutine side ----------------------------------------------------------------------
     def _main(self):
@@ -86,6 +117,7 @@ class Coro:
         except BaseException as e:  # noqa: BLE001 - delivered to the driver
             self.exc = e
         finally:
+            _local.coro = None
             self.done = True
             self._yielded.release()
 
